@@ -17,10 +17,10 @@ package zhttp
 //@   requires r != nil && r.URL != nil
 //@   requires[C06] parsers_configured: Config.Parsers.JSON != nil && Config.Parsers.Form != nil && Config.Parsers.Query != nil
 //@   pure
-//@   ensures[C15] get_and_head_read_the_query: r.Method == "GET" || r.Method == "HEAD" ==> result == parsed(Config.Parsers.Query, r)
-//@   ensures[C15] json_body_for_json_media_type: r.Method != "GET" && r.Method != "HEAD" && mediatype(r) == "application/json" ==> result == parsed(Config.Parsers.JSON, r)
-//@   ensures[C15] form_for_form_media_type: r.Method != "GET" && r.Method != "HEAD" && mediatype(r) == "application/x-www-form-urlencoded" ==> result == parsed(Config.Parsers.Form, r)
-//@   ensures[C15] query_for_any_other_media_type: r.Method != "GET" && r.Method != "HEAD" && mediatype(r) != "application/json" && mediatype(r) != "application/x-www-form-urlencoded" ==> result == parsed(Config.Parsers.Query, r)
+//@   ensures[C15,C14] get_and_head_read_the_query: r.Method == "GET" || r.Method == "HEAD" ==> result == parsed(Config.Parsers.Query, r)
+//@   ensures[C15,C14] json_body_for_json_media_type: r.Method != "GET" && r.Method != "HEAD" && mediatype(r) == "application/json" ==> result == parsed(Config.Parsers.JSON, r)
+//@   ensures[C15,C14] form_for_form_media_type: r.Method != "GET" && r.Method != "HEAD" && mediatype(r) == "application/x-www-form-urlencoded" ==> result == parsed(Config.Parsers.Form, r)
+//@   ensures[C15,C14] query_for_any_other_media_type: r.Method != "GET" && r.Method != "HEAD" && mediatype(r) != "application/json" && mediatype(r) != "application/x-www-form-urlencoded" ==> result == parsed(Config.Parsers.Query, r)
 
 // The three default parsers.
 //@ func init$1(r)
@@ -30,33 +30,33 @@ package zhttp
 //@ func init$2(r)
 //@   implements functype ParserFunc
 //@   pure
-//@   ensures[C15] form_factory_over_the_request: isclo(result, "zhttp.init$2$1") && *captured(result, "zhttp.init$2$1", 0) == r
+//@   ensures[C15,C14] form_factory_over_the_request: isclo(result, "zhttp.init$2$1") && *captured(result, "zhttp.init$2$1", 0) == r
 //@ func init$3(r)
 //@   implements functype ParserFunc
 //@   pure
-//@   ensures[C15] query_factory_over_the_request: isclo(result, "zhttp.init$3$1") && *captured(result, "zhttp.init$3$1", 0) == r
+//@   ensures[C15,C14] query_factory_over_the_request: isclo(result, "zhttp.init$3$1") && *captured(result, "zhttp.init$3$1", 0) == r
 
 //@ specfun urldata(Iface) Ptr
 //@ func init$2$1()
 //@   implements functype DpFactory
 //@   captures request_given: r != nil
 //@   modifies r.Form, r.PostForm, srctag
-//@   ensures[C15] issue_iff_the_form_does_not_parse: (result1 != nil) == (parseform_err(r) != nil)
-//@   ensures[C15] malformed_form_is_one_invalid_form_issue: result1 != nil ==> result0 == nil && isnew(result1) && result1.Code == "invalid_form" && result1.Err != nil
+//@   ensures[C15,C14] issue_iff_the_form_does_not_parse: (result1 != nil) == (parseform_err(r) != nil)
+//@   ensures[C15,C14,C07] malformed_form_is_one_invalid_form_issue: result1 != nil ==> result0 == nil && isnew(result1) && result1.Code == "invalid_form" && result1.Err != nil
 //@   ensures[C15,C14] form_values_read_form_tags: result1 == nil ==> istype(result0, urlDataProvider) && result0.(urlDataProvider).Data == r.Form && result0.(urlDataProvider).tag == &formTag
 //@ func init$3$1()
 //@   implements functype DpFactory
 //@   captures request_given: r != nil && r.URL != nil
 //@   modifies srctag
-//@   ensures[C15] query_never_fails: result1 == nil
+//@   ensures[C15,C14] query_never_fails: result1 == nil
 //@   ensures[C15,C14] query_values_read_query_tags: istype(result0, urlDataProvider) && result0.(urlDataProvider).tag == &queryParam
 
 // A parameter named with a [] suffix or repeated is a list, a single one a string, a missing one "" (= absent).
 //@ func (urlDataProvider).Get(u, key)
 //@   pure
-//@   ensures[C15] bracket_suffix_is_a_list: strlen(key) > 2 && suffixof("[]", key) ==> result == box(u.Data[key])
-//@   ensures[C15] repeated_is_a_list: !(strlen(key) > 2 && suffixof("[]", key)) && len(u.Data[key]) > 1 ==> result == box(u.Data[key])
-//@   ensures[C15] single_is_a_string_missing_is_empty: !(strlen(key) > 2 && suffixof("[]", key)) && len(u.Data[key]) <= 1 ==> result == box(ite(len(u.Data[key]) == 1, u.Data[key][0], ""))
+//@   ensures[C15,C14] bracket_suffix_is_a_list: strlen(key) > 2 && suffixof("[]", key) ==> result == box(u.Data[key])
+//@   ensures[C15,C14] repeated_is_a_list: !(strlen(key) > 2 && suffixof("[]", key)) && len(u.Data[key]) > 1 ==> result == box(u.Data[key])
+//@   ensures[C15,C14] single_is_a_string_missing_is_empty: !(strlen(key) > 2 && suffixof("[]", key)) && len(u.Data[key]) <= 1 ==> result == box(ite(len(u.Data[key]) == 1, u.Data[key][0], ""))
 
 //@ func (urlDataProvider).GetByField(u, field, fallback)
 //@   implements iface DataProvider.GetByField
